@@ -144,6 +144,92 @@ func RunSchedule(bodies []func() string, prefix []int, setHook func(func(int)), 
 	return e, nil
 }
 
+// PointInfo describes one scheduling decision of an execution.
+type PointInfo struct {
+	Enabled        int
+	RunningEnabled bool
+	Chosen         int
+}
+
+// SchedRun is the outcome of one execution as the explorer needs it; it can come
+// from this process (RunSchedule) or from a child process that executed exactly
+// one schedule from a cold start.
+type SchedRun struct {
+	Points   []PointInfo
+	Results  []string
+	Stuck    bool
+	Diverged bool
+}
+
+// Info exports the scheduling decisions of an execution.
+func (e *SchedExec) Info() SchedRun {
+	r := SchedRun{Stuck: e.Stuck, Diverged: e.Diverged}
+	for _, p := range e.points {
+		r.Points = append(r.Points, PointInfo{p.enabled, p.runningEnabled, p.chosen})
+	}
+	for _, t := range e.Threads {
+		r.Results = append(r.Results, t.Result)
+	}
+	return r
+}
+
+// ExploreRuns is the preemption-bounded DFS over an abstract executor: run
+// executes ONE schedule (prefix, then default choices) and reports its points.
+func ExploreRuns(bound int, run func(prefix []int) SchedRun, check func(r SchedRun, prefix []int)) SchedStats {
+	st := SchedStats{Outcomes: map[string]int64{}}
+	var rec func(prefix []int)
+	rec = func(prefix []int) {
+		if st.Stuck || st.Diverged {
+			return
+		}
+		r := run(prefix)
+		if r.Stuck {
+			st.Stuck = true
+			return
+		}
+		if r.Diverged {
+			st.Diverged = true
+			check(r, prefix)
+			return
+		}
+		st.Schedules++
+		st.Points += int64(len(r.Points))
+		if len(r.Points) > st.MaxPoints {
+			st.MaxPoints = len(r.Points)
+		}
+		key := ""
+		for _, x := range r.Results {
+			key += x + "\x00"
+		}
+		st.Outcomes[key]++
+		check(r, prefix)
+		pre := 0
+		for i, p := range r.Points {
+			if i >= len(prefix) {
+				cost := pre
+				if p.RunningEnabled {
+					cost++
+				}
+				if cost <= bound {
+					for alt := 1; alt < p.Enabled; alt++ {
+						np := make([]int, i+1)
+						for j := 0; j < i; j++ {
+							np[j] = r.Points[j].Chosen
+						}
+						np[i] = alt
+						rec(np)
+					}
+				}
+			}
+			if p.RunningEnabled && p.Chosen != 0 {
+				pre++
+			}
+		}
+	}
+	rec(nil)
+	return st
+}
+
 // SchedStats is what one program's exploration covered.
 type SchedStats struct {
 	Schedules int64
